@@ -155,8 +155,12 @@ WILD_POOL = [1 / 3.0, -1 / 3.0, 3.141592653589793, -2.718281828459045, 0.1, 0.7,
              0.30000000000000004, 99.99999999999999, 5e-5]
 
 
+def lattice_small(rng):
+    return rng.randint(-16, 16) / 8.0
+
+
 def gen_case(rng, cmd, dtypes=arr.DTYPES_Q, max_cells=60, ranks=(1, 2, 3), hostile=False, max_n=5,
-             masks=True, distinct2=None, n=None, wild=False, layouts=True):
+             masks=True, distinct2=None, n=None, wild=False, layouts=True, offset=False):
     """A JSON case: {"cmd", "inputs": [array specs], "params"}."""
     n = n or n_inputs(rng, cmd, max_n)
     shape = arr.gen_shape(rng, max_cells, ranks)
@@ -178,6 +182,17 @@ def gen_case(rng, cmd, dtypes=arr.DTYPES_Q, max_cells=60, ranks=(1, 2, 3), hosti
         if (cmd in STATS or cmd in ("NormalizeCurve", "CvtToFuzzyCurve")) and len(set(ins[0]["data"])) < 2 and len(ins[0]["data"]) > 1 and ins[0]["dtype"] == "float64":
             ins[0]["data"][0] = 12.625
             ins[0]["data"][1] = -3.3
+            if ins[0]["mask"]:
+                ins[0]["mask"][0] = ins[0]["mask"][1] = False
+    if offset and not fuzzy_in:
+        # values whose common offset is huge compared with their spread (Julian days, epoch seconds, UTM northings)
+        base = rng.choice([2460000.0, 4000000.0, 1e8])
+        for s_ in ins:
+            if s_["dtype"] == "float64":
+                s_["data"] = [base + (v if abs(v) <= 64 else v / 16.0) for v in (lattice_small(rng) for _ in s_["data"])]
+        if len(ins[0]["data"]) > 1 and ins[0]["dtype"] == "float64" and len(set(ins[0]["data"])) < 2:
+            ins[0]["data"][0] = base + 0.5
+            ins[0]["data"][1] = base - 0.25
             if ins[0]["mask"]:
                 ins[0]["mask"][0] = ins[0]["mask"][1] = False
     dv = [ins[0]["data"][i] for i in range(len(ins[0]["data"])) if not (ins[0]["mask"] and ins[0]["mask"][i])]
